@@ -236,12 +236,27 @@ def run_job(job, io):
     reg = Registry()
     custom_funcs = {U.CA: reg.register(U.CA, 'ns', style=tape.draw(4, 'style')),
                     U.CB: reg.register(U.CB, GLOBAL, style=tape.draw(4, 'style-g'))}
+    else_branch = True
+    setup_viols = []
     if tape.draw(2, 'double-registration'):
+        else_branch = False
         # the same classes ALSO registered in the other place, with callables that list the children in reverse: in namespace
         # 'ns' the named registration must win on both sides, elsewhere the global one
         reg.register(U.CA, GLOBAL, style=tape.draw(4, 'style-ca-g')).reverse = True
         reg.register(U.CB, 'ns', style=tape.draw(4, 'style-cb-ns')).reverse = True
         probes['double-registration'] += 1
+    if else_branch and tape.draw(2, 'mis-targeted-unregister'):
+        # unregistering from a namespace in which the class is NOT registered (it is registered elsewhere) must fail and change
+        # nothing, on both sides: the comparisons below would see an engine that let go of the other registration
+        for cls_m, ns_m in ((U.CB, 'ns'), (U.CA, 'other'), (U.NTM, 'ns')):
+            try:
+                optree.unregister_pytree_node(cls_m, namespace=ns_m)
+                setup_viols.append(('twin-disagree', 'unregister:absent', 'unregister_pytree_node(%s, namespace=%r) succeeded although it is not registered there' % (cls_m.__name__, ns_m)))
+            except ValueError:
+                pass
+            except Exception as e:  # noqa: BLE001
+                setup_viols.append(('twin-disagree', 'unregister:absent', 'unregister_pytree_node(%s, namespace=%r) of an absent registration raised %s (documented: ValueError)' % (cls_m.__name__, ns_m, type(e).__name__)))
+        probes['mis-targeted-unregister'] += 1
     import warnings as _w
     with _w.catch_warnings():
         _w.simplefilter('ignore')
@@ -254,6 +269,9 @@ def run_job(job, io):
     def viol(cls, site, msg):
         if len(violations) < 6:
             violations.append({'cls': cls, 'site': site, 'msg': '%s | history=%s' % (msg, oplog[-8:])})
+
+    for sv in setup_viols:
+        viol(*sv)
 
     def new_class(shape):
         counter[0] += 1
